@@ -22,6 +22,7 @@ import concurrent.futures
 import json
 import os
 import re
+import shutil
 import subprocess
 import time
 
@@ -34,8 +35,9 @@ PROTOS = [("0.5", "teeworlds-0.5.json"), ("0.6", "teeworlds-0.6.json"),
           ("0.7", "teeworlds-0.7-trunk.json"), ("ddnet", "ddnet-19.6.json")]
 
 # mismatch kinds of direction A that break the property / only the detailed spec
-VIOLATION_KINDS = {"panic", "canon", "reject-accepted", "unknown-accepted", "encode-panic", "obj-size"}
-DRIFT_KINDS = {"detail", "accept-rejected"}
+VIOLATION_KINDS = {"panic", "canon", "reject-accepted", "unknown-accepted", "encode-panic", "obj-size", "build-canon"}
+DRIFT_KINDS = {"detail", "accept-rejected", "build-detail"}
+FAMS = "main,pair,ienc,demo,build"
 
 
 def desc_path(fname):
@@ -45,7 +47,7 @@ def desc_path(fname):
 def java_env(ctx, proto, fname, full):
     tmp = os.path.join(ctx.workdir, "jtmp-" + proto)
     os.makedirs(tmp, exist_ok=True)
-    return {"GAMENET_DESC": desc_path(fname), "GAMENET_FULL": "1" if full else "0",
+    return {"GAMENET_DESC": desc_path(fname), "GAMENET_FULL": "1" if full else "0", "GAMENET_FAMS": FAMS,
             "JAVA_TOOL_OPTIONS": "-Djava.io.tmpdir=" + tmp}
 
 
@@ -128,7 +130,7 @@ def judge_vectors(ctx, proto, recs):
         if j.get("t") != "M":
             continue
         vec = j["vec"]
-        k = (j["kind"], vec["id"][0], name_of(vec))
+        k = (j["kind"], vec.get("sec") or vec["id"][0], name_of(vec))
         g = groups.setdefault(k, {"n": 0, "first": j})
         g["n"] += 1
     for (kind, sec, name), g in sorted(groups.items()):
@@ -144,6 +146,8 @@ def judge_vectors(ctx, proto, recs):
 
 
 def event_key(proto, ev):
+    if ev.get("k") == "benc":
+        return "trace-rejected:%s:build:%s:%s" % (proto, ev.get("sec"), ev.get("mi"))
     what = "panic" if ev.get("r") == "panic" else ("encode-panic" if ev.get("enc") == "panic" else "rejected")
     return "trace-%s:%s:%s:%s" % (what, proto, ev.get("entry"), ev.get("tname") or ev.get("sec") or "-")
 
@@ -174,6 +178,11 @@ def judge_trace(ctx, proto, fname, trace, label):
             continue
         seen.add(key)
         cnt = len([1 for _, e in rejected if event_key(proto, e) == key])
+        if ev.get("k") == "benc":
+            ctx.report(key, "%s: GameNetTrace rejects event %d: encode of %s message/object %s built through the struct fields from %s gave %s %s %s [%d event(s) of this kind]"
+                       % (proto, n, ev.get("sec"), ev.get("mi"), str(ev.get("vals"))[:300], ev.get("r"), str(ev.get("bytes"))[:200],
+                          ev.get("msg"), cnt), {"proto": proto, "event": ev})
+            continue
         ctx.report(key, "%s: GameNetTrace rejects event %d (%s input of %s %s): outcome r=%s e=%s w=%s enc=%s re=%s for data=%s [%d event(s) of this kind]"
                    % (proto, n, ev.get("src"), ev.get("entry"), ev.get("tname") or "", ev.get("r"), ev.get("e"), ev.get("w"),
                       ev.get("enc"), str(ev.get("re"))[:200], str(ev.get("data"))[:200], cnt),
@@ -223,6 +232,98 @@ def binding_selftest(ctx, proto, fname, trace):
         raise core.ToolError("binding self-test: GameNetTrace accepted a manipulated trace (%s)" % ", ".join(missed))
 
 
+GENERATED = [("teeworlds-0.5.json", "teeworlds-0.5", "libtw2-gamenet-teeworlds-0-5"),
+             ("teeworlds-0.6.json", "teeworlds-0.6", "libtw2-gamenet-teeworlds-0-6"),
+             ("teeworlds-0.7-trunk.json", "teeworlds-0.7", "libtw2-gamenet-teeworlds-0-7"),
+             ("ddnet-19.6.json", "ddnet", "libtw2-gamenet-ddnet")]
+
+
+def other_descriptions(ctx):
+    """Thorough tier, design level: the model-level laws (Law, truncation law, uniquely readable layout, pair /
+    integer-encoding / demo / build laws) on the shipped descriptions that have no generated crate."""
+    sdir = os.path.join(core.repo_root(), "gamenet", "generate", "spec")
+    have = {f for _, f in PROTOS}
+    others = sorted(f for f in os.listdir(sdir) if f.endswith(".json") and f not in have)
+    def one(f):
+        env = java_env(ctx, "other-" + f, f, False)
+        return f, core.run_tlc("GameNetMC.tla", "MC_GameNet.cfg", cwd=CWD, workers=2, timeout=1500, env=env, heap="3g")
+    with concurrent.futures.ThreadPoolExecutor(max_workers=3) as ex:
+        results = list(ex.map(one, others))
+    summary = {}
+    for f, res in results:
+        ctx.add_states(res, "GameNetMC laws on a description without generated crate (%s)" % f)
+        unc = re.search(r'<<"U", "(.*)">>', res.out)
+        unc = json.loads(unc.group(1).replace('\\"', '"')) if unc else []
+        summary[f] = {"vectors": res.distinct, "ok": res.ok, "uncovered": ["_".join(u["name"]) for u in unc]}
+        if res.violated:
+            ctx.report_drift("description %s (no generated crate): GameNetMC invariant %s is violated - the described layout is "
+                             "not uniquely readable or breaks a model-level law: %s" % (f, res.violated, res.out[-500:]))
+        elif not res.ok:
+            ctx.note("description %s could not be interpreted: %s" % (f, (res.error or res.out[-300:])[:300]))
+        if unc:
+            ctx.note("description %s: %d message(s)/object(s) use a member kind the interpreter does not cover: %s"
+                     % (f, len(unc), ", ".join(summary[f]["uncovered"][:10])))
+    ctx.coverage["other_descriptions"] = summary
+
+
+def generator_check(ctx):
+    """Thorough tier: regenerate the four crates from the descriptions with the repository's generator into a
+    scratch directory and compare with the committed generated sources. A stale generated file is a mismatch
+    between description and codec: when the vectors behave differently on a tree with the regenerated sources
+    it is a violation, otherwise drift."""
+    root = core.repo_root()
+    scratch = os.path.join(ctx.workdir, "regen")
+    shutil.rmtree(scratch, ignore_errors=True)
+    shutil.copytree(os.path.join(root, "gamenet", "generate"), os.path.join(scratch, "generate"),
+                    ignore=shutil.ignore_patterns("__pycache__"))
+    differing = []
+    compared = 0
+    for spec, outdir, name in GENERATED:
+        r = subprocess.run(["python3", "generate/generate.py", "generate/spec/" + spec, outdir, name], cwd=scratch,
+                           stdout=subprocess.PIPE, stderr=subprocess.STDOUT, text=True, timeout=600)
+        if r.returncode != 0:
+            raise core.ToolError("generator failed on %s: %s" % (spec, r.stdout[-800:]))
+        for d, _, files in os.walk(os.path.join(scratch, outdir)):
+            for f in files:
+                new = os.path.join(d, f)
+                rel = os.path.relpath(new, scratch)
+                old = os.path.join(root, "gamenet", rel)
+                compared += 1
+                if not os.path.exists(old) or open(old, "rb").read() != open(new, "rb").read():
+                    differing.append(rel)
+    ctx.add_run("generator: regenerated sources compared with the committed ones", files_compared=compared,
+                differing=differing)
+    ctx.coverage["generated_files_compared"] = compared
+    if not differing:
+        return
+    # behaviour on a tree with the regenerated sources
+    alt = os.path.join(ctx.workdir, "regen-repo")
+    shutil.rmtree(alt, ignore_errors=True)
+    shutil.copytree(root, alt, ignore=shutil.ignore_patterns("target", ".git"), symlinks=True)
+    for rel in differing:
+        os.makedirs(os.path.dirname(os.path.join(alt, "gamenet", rel)), exist_ok=True)
+        shutil.copy(os.path.join(scratch, rel), os.path.join(alt, "gamenet", rel))
+    env = dict(os.environ, VERIF_REPO=alt, GAMENET_NO_REGEN="1", VERIF_SEED=str(ctx.seed))
+    r = subprocess.run([os.path.join(core.VERIF, "check"), "C14", "--tier", "quick"], cwd=core.VERIF, env=env,
+                       stdout=subprocess.PIPE, stderr=subprocess.STDOUT, text=True, timeout=3000)
+    h = __import__("hashlib").sha1(alt.encode()).hexdigest()[:10]
+    shutil.rmtree(os.path.join(core.WORK, "alt-" + h), ignore_errors=True)
+    shutil.rmtree(alt, ignore_errors=True)
+    text = "the committed generated sources differ from what gamenet/generate produces from the descriptions: %s" % ", ".join(differing[:12])
+    if r.returncode == 0:
+        # the regenerated tree passes: do the committed sources behave differently on some vector? (this run's own verdict tells)
+        if ctx.violations:
+            ctx.report("stale-generated:%s" % differing[0], text + "; the tree with the regenerated sources passes all vectors "
+                       "while the committed sources do not", {"differing": differing})
+        else:
+            ctx.report_drift(text + "; no vector behaves differently")
+    elif r.returncode == 1:
+        ctx.report("generator:%s" % differing[0], text + "; with the regenerated sources the vectors are violated: "
+                   + " | ".join(l for l in r.stdout.splitlines() if l.startswith("[violation]"))[:600], {"differing": differing})
+    else:
+        ctx.report_drift(text + "; the tree with the regenerated sources could not be checked (exit %s)" % r.returncode)
+
+
 def one_proto(ctx, bins, proto, fname, full):
     return export_and_replay(ctx, bins, proto, fname, full, timeout=1500 if full else 600)
 
@@ -235,7 +336,8 @@ def run(ctx):
         futs = {p: ex.submit(one_proto, ctx, bins, p, f, full) for p, f in PROTOS}
         for p, fu in futs.items():
             results[p] = fu.result()
-    totals = {"vectors": 0, "events_logged": 0, "events_bulk": 0}
+    totals = {"vectors": 0, "events_logged": 0, "events_bulk": 0, "built": 0}
+    families = {}
     uncovered = []
     messages = {}
     kinds = {}
@@ -285,7 +387,11 @@ def run(ctx):
         ctx.add_run("replay %s" % proto, vectors=summ["vectors"], by_class=summ["by_class"],
                     mismatching_vectors=summ["mismatching_vectors"], derived_inputs_logged=summ["events_logged"],
                     derived_inputs_bulk=summ["events_bulk"], bulk_ok=summ["bulk_ok"], bulk_err=summ["bulk_err"],
-                    bulk_panic=summ["bulk_panic"])
+                    bulk_panic=summ["bulk_panic"], by_family=summ.get("by_family"), built=summ.get("built"),
+                    built_by_outcome=summ.get("built_by_outcome"))
+        for fam_, n_ in (summ.get("by_family") or {}).items():
+            families[fam_] = families.get(fam_, 0) + n_
+        totals["built"] += summ.get("built", 0)
         for s in summ.get("samples", [])[:2]:
             s["proto"] = proto
             ctx.sample(s, limit=6)
@@ -296,12 +402,19 @@ def run(ctx):
         tres = [fu.result() for fu in futs]
     if ctx.tier == "thorough" and traces:
         binding_selftest(ctx, *traces[0])
+    if ctx.tier == "thorough" and not os.environ.get("GAMENET_NO_REGEN"):
+        other_descriptions(ctx)
+        generator_check(ctx)
     cov = ctx.coverage
-    cov["evaluations"] = totals["vectors"] + totals["events_logged"] + totals["events_bulk"]
+    cov["evaluations"] = totals["vectors"] + totals["events_logged"] + totals["events_bulk"] + totals["built"]
+    cov["vectors_per_family"] = families
+    cov["values_built_and_encoded"] = totals["built"]
     cov["distinct_nontrivial"] = totals["vectors"]
     cov["rule"] = ("distinct vectors <<description, section, message/object, member, boundary value>> generated by TLC "
                    "from the shipped descriptions and replayed on the real crate (every message and object of the four "
-                   "descriptions; every member at each point of its sweep with the other members canonical)")
+                   "descriptions; family main: every member at each point of its sweep with the other members canonical, "
+                   "arrays at every index; pair: adjacent and (first, last) members both at key points; ienc: non-canonical "
+                   "integer encodings; demo: padding behind Unpacker::new_from_demo; build: values for encode that no decoder produces)")
     cov["exhaustive"] = not uncovered
     cov["messages"] = messages
     cov["vectors_per_member_kind"] = kinds
@@ -312,9 +425,10 @@ def run(ctx):
         ctx.note("%d message(s)/object(s) use a member kind the interpreter does not cover: %s" % (
             len(uncovered), ", ".join("%s/%s/%s" % (u["proto"], u["section"], u["name"]) for u in uncovered[:20])))
     ctx.assumptions += [
-        "the description is read exactly as gamenet/generate/datatypes.py reads it (member kinds, min/max, enum values, disallow_cc, super, attributes); the generator itself is not checked",
-        "the value of an integer with non-zero padding bits is left open by doc/int.md: inputs containing one are executed (no panic) but their outcome is not predicted",
-        "encode() of a decoded message whose optional member is absent is outside the API contract (generated assert!(..is_some())): its outcome is not judged",
+        "the description is read exactly as gamenet/generate/datatypes.py reads it (member kinds, min/max, enum values, disallow_cc, super, attributes); the generator is run in the thorough tier only (regenerated sources compared with the committed ones)",
+        "an integer with non-zero padding bits is predicted the way libtw2's packer reads it (spec/gamenet/VarInt.tla vimpl = spec/varint of C08: the lowest padding bit lands on bit 31); doc/int.md's value (padding ignored) differs from it when that bit is set - such vectors are judged at the detailed level only",
+        "encode() of a value with an absent optional member / an out-of-range field / a control character in a strict string / a NUL in a string panics by design (generated assert!s, write_string): the spec predicts the panic, a deviation is DRIFT (C14's text is about decoding and about re-encoding decoded values)",
+        "demo padding (Unpacker::new_from_demo) is not part of the descriptions: deviations on padded input are DRIFT unless the bytes are exactly the canonical ones (padding length 0) or the code panics",
         "field semantics (what a value means) are not decided; the Rust type name of the decoded value is compared at the detailed level only",
         "truncations/mutations/random inputs beyond the logged budget are executed and counted (no panic, no hang) but not validated one by one by TLC",
     ]
@@ -334,6 +448,13 @@ def replay(ctx, path):
         src = rep["vec"]
     else:
         src = rep["event"]
+    if src.get("k") == "benc" or ("vals" in src and "entry" not in src):
+        inp = {"sec": src["sec"], "mi": src["mi"], "vals": src["vals"], "src": src.get("src", "vec")}
+        rc, out = core.run_harness([exe, "run", proto], stdin=json.dumps(inp) + "\n", timeout=120)
+        trace = os.path.join(ctx.workdir, "replay.ndjson")
+        open(trace, "w").write(out)
+        judge_trace(ctx, proto, fname, trace, "replay")
+        return
     # and through the trace spec: re-execute the input, let TLC judge the fresh outcome
     inp = {"entry": src["entry"], "ord": src["ord"], "uuid": src["uuid"], "data": src["data"], "src": src.get("src", "vec")}
     rc, out = core.run_harness([exe, "run", proto], stdin=json.dumps(inp) + "\n", timeout=120)
